@@ -184,6 +184,14 @@ def run(eng, rep, tier):
     # states and symbols live in the same dictionaries of the transition functions: sibling __eq__ must be symmetric
     from . import eqsym
     eqsym.check(eng, ob, "C01.8", "pyformlang.finite_automaton.finite_automaton_object.FiniteAutomatonObject")
+    # optional identifiers of the constructors are compared with None (0 / '' are legitimate state names)
+    from . import optid
+    n_opt = optid.check(eng, rep, "C01", "C01.9",
+                        [(prog.method("EpsilonNFA", "__init__"), ENFA), (prog.method("DeterministicFiniteAutomaton", "__init__"), DFA)],
+                        names.ID_CLASSES)
+    if n_opt < 1:       # DeterministicFiniteAutomaton.start_state (EpsilonNFA takes a set of start states)
+        rep.error("R6", "C01.9", DFA, "optional-identifier-tested-against-None",
+                  "the optional start state of the DFA constructor was not found (%d)" % n_opt)
     rep.stats.update(eng.stats())
     rep.floor = 40
 
